@@ -35,6 +35,12 @@ def _check_find(case):
             st, r, _ = call(t.find, q, **kw)
             if st == "exc" or r != exp:
                 viols.append(Viol("find-" + mode, f"find({q!r}, {kw}) on labels {L}: {r!r}, expected {exp}"))
+            # the same call with the flags given positionally, in the documented order (matchLabel, substrMatchFlag, usingRE)
+            pos = {"equal": (False, False), "substring": (True, False), "regex": (False, True)}[mode]
+            st, r, _ = call(t.find, q, *pos)
+            n += 1
+            if st == "exc" or r != exp:
+                viols.append(Viol("find-" + mode + "-positional", f"find({q!r}, {pos[0]}, {pos[1]}) on labels {L}: {r!r}, expected {exp}"))
     return n, "ok", (kind, L), viols
 
 
